@@ -965,6 +965,23 @@ func (x *Exec) stub(st *State, f *Frame, in *ssa.Call, fn *ssa.Function, name st
 		x.observe(st, x.goString(st, args[0]), args[1])
 		x.ret(f, in, nil)
 		return true
+	case "vHavoc":
+		// every word-sized slot of the object becomes an unconstrained symbol: hidden per-object state (caches, flags) is arbitrary
+		v := args[0]
+		if iv, ok := v.(I); ok {
+			v = iv.v
+		}
+		if pp, ok := v.(P); ok && pp.obj != 0 {
+			o := x.obj(st, pp.obj)
+			nm := x.goString(st, args[1])
+			for i, sl := range o.slots {
+				if w, ok := sl.(W); ok {
+					o.slots[i] = W{d.Var(fmt.Sprintf("%s.hid%d", nm, i), w.n.W)}
+				}
+			}
+		}
+		x.ret(f, in, nil)
+		return true
 	case "vFreeze", "vTagArg", "vTagRecv":
 		v := args[0]
 		if iv, ok := v.(I); ok {
